@@ -497,6 +497,13 @@ xmpp_ctx_t *xmpp_ctx_new(const xmpp_mem_t *mem, const xmpp_log_t *log)
  */
 void xmpp_ctx_free(xmpp_ctx_t *ctx)
 {
+    xmpp_handlist_t *item, *next;
+
+    /* global timed handlers that were never deleted */
+    for (item = ctx->timed_handlers; item; item = next) {
+        next = item->next;
+        strophe_free(ctx, item);
+    }
     /* mem and log are owned by their suppliers */
     xmpp_rand_free(ctx, ctx->rand);
     strophe_free(ctx, ctx); /* pull the hole in after us */
